@@ -611,9 +611,14 @@ func xfsGate(name string, kv ...any) {
 			xfsByPtr.Store(xfsPtr(kv[2]), w)
 			xfsByPtr.Store(xfsPeek(reflect.ValueOf(kv[2]), "prefetchWaiter").Pointer(), w)
 		}
-	case "layer.prefetch.start", "layer.prefetch.fetch":
+	case "layer.prefetch.start", "layer.prefetch.fetch", "layer.prefetch.noprefetch":
+		// (layers built without prioritized files carry the no-prefetch landmark: their prefetch ends at "noprefetch")
 		if w := xfsWorldOf(kv[0]); w != nil {
-			w.stop("pf"+strconv.FormatUint(uint64(xfsPtr(kv[0])), 16), strings.TrimPrefix(name, "layer.prefetch."), nil)
+			at := "fetch"
+			if name == "layer.prefetch.start" {
+				at = "start"
+			}
+			w.stop("pf"+strconv.FormatUint(uint64(xfsPtr(kv[0])), 16), at, nil)
 		}
 	}
 }
@@ -685,7 +690,7 @@ func xfsMounts() map[string]int {
 }
 
 func (w *xfsWorld) obs() xfsObs {
-	o := xfsObs{Lmap: map[string]int{}, Fuse: map[string]int{}}
+	o := xfsObs{Lmap: map[string]int{}, Fuse: map[string]int{}, Objs: []xfsObjObs{}}
 	ms := xfsMounts()
 	w.fs.layerMu.Lock()
 	entries := map[string]layer.Layer{}
@@ -839,7 +844,7 @@ func (s xfsStep) str(k string) string { v, _ := s[k].(string); return v }
 func (s xfsStep) num(k string) int    { v, _ := s[k].(float64); return int(v) }
 func (s xfsStep) boo(k string) bool   { v, _ := s[k].(bool); return v }
 
-const xfsStepTimeout = 20 * time.Second
+const xfsStepTimeout = 4 * time.Second
 
 // exec executes one spec step on the implementation and returns the recorded events (what the implementation did)
 func (w *xfsWorld) exec(s xfsStep) ([]map[string]any, error) {
@@ -1457,6 +1462,7 @@ func xfsE2EWalk(base string, walk []xfsStep) (evs []map[string]any) {
 		w.close()
 	}()
 	blobOf := map[string]string{"c1": "b1", "c2": "b2", "c3": "b3"}
+	extra := map[string]bool{} // active snapshots left behind, mounted, by a remote Prepare whose target already existed
 	// projection: committed remote snapshots (metadata) -> their fs directories; the filesystem's layer map; kernel mounts
 	project := func() map[string]any {
 		remote := []string{}
@@ -1530,6 +1536,10 @@ func xfsE2EWalk(base string, walk []xfsStep) (evs []map[string]any) {
 			}
 			if cerr == nil {
 				e["mounts"] = len(ms)
+			} else if tgt != "" && mountOK && strings.Contains(cerr.Error(), "already exists") {
+				if _, serr := sn.Stat(ctx, k); serr == nil {
+					extra[k] = true
+				}
 			}
 		case "View":
 			_, cerr = sn.View(ctx, k, p)
@@ -1537,6 +1547,9 @@ func xfsE2EWalk(base string, walk []xfsStep) (evs []map[string]any) {
 			cerr = sn.Commit(ctx, tgt, k)
 		case "Remove":
 			cerr = sn.Remove(ctx, k)
+			if cerr == nil {
+				delete(extra, k)
+			}
 		case "Mounts":
 			_, cerr = sn.Mounts(ctx, k)
 		case "Update":
@@ -1585,6 +1598,7 @@ func xfsE2EWalk(base string, walk []xfsStep) (evs []map[string]any) {
 		e["reads"] = reads
 		e["closed"] = closed
 		e["st"] = project()
+		e["extra"] = len(extra)
 		evs = append(evs, e)
 		if closed {
 			break
